@@ -23,7 +23,7 @@ import common
 logging.disable(logging.CRITICAL)
 
 PROP = "C07"
-PROPS_FILES = ["Pms/Props/C07.lean", "Pms/Props/C07Sq.lean", "Pms/Props/C07Rot.lean", "Pms/Props/C07Pair.lean"]
+PROPS_FILES = ["Pms/Props/C07.lean", "Pms/Props/C07Sq.lean", "Pms/Props/C07Rot.lean", "Pms/Props/C07Pair.lean", "Pms/Props/C07Dyn.lean"]
 GENERATORS = []
 RULE = ("metamorphic pairs (configuration, transformed configuration) × real routine; configurations = seeded decimal-grid "
         "configurations (2D/3D, orthogonal and triclinic cells, 1-4 species, 1-5 frames, open clusters) and first frames of "
@@ -196,7 +196,8 @@ def make_tf(kind, cfg, seed):
     if kind == "translate":
         return {"kind": kind, "c": [common.dec(rng, -7, 7, nd=3) for _ in range(d)]}
     if kind == "lshift":
-        return {"kind": kind, "m": [[rng.randint(-2, 2) for _ in range(d)] for _ in range(N)]}
+        # every particle of every frame gets its own whole number of cell vectors
+        return {"kind": kind, "m": [[[rng.randint(-2, 2) for _ in range(d)] for _ in range(N)] for _ in range(cfg["T"])]}
     if kind == "relabel":
         s = list(range(N))
         while N > 1 and s == list(range(N)):
@@ -226,8 +227,8 @@ def apply_tf(A, tf):
     if k == "translate":
         B["pos"] = A["pos"] + np.array([float(x) for x in tf["c"]])[None, None, :]
     elif k == "lshift":
-        m = np.array(tf["m"], dtype=float)
-        B["pos"] = A["pos"] + ((m * A["ppp"][None, :]) @ A["H"])[None, :, :]
+        m = np.array(tf["m"], dtype=float)                      # [T, N, d]
+        B["pos"] = A["pos"] + (m * A["ppp"][None, None, :]) @ A["H"]
     elif k == "relabel":
         s = np.array(tf["sigma"])
         B["pos"] = A["pos"][:, s, :]
@@ -265,7 +266,7 @@ def driver_lines(cfg, tf, nlim=60):
         return [f"sym translate {d} {n} {P} " + " ".join(tf["c"])]
     if k == "lshift":
         return [f"sym lshift {d} " + " ".join(x for row in cfg["H"] for x in row) + " " + " ".join(str(x) for x in cfg["ppp"]) +
-                f" {n} {P} " + " ".join(str(x) for row in tf["m"][:n] for x in row)]
+                f" {n} {P} " + " ".join(str(x) for row in tf["m"][0][:n] for x in row)]
     if k == "relabel":
         if cfg["N"] > nlim:
             return []
